@@ -667,7 +667,6 @@ def generate(repo):
             raise Untranslatable('r and t are reshaped differently')
         m = re.fullmatch(r'stack\.shape\[(\d+):\]', next(iter(shapes)))
         if not m:
-            m2 = re.fullmatch(r'(indices|thicknesses)\.shape\[(\d+):\]', next(iter(shapes)))
             raise Untranslatable(f'output shape {next(iter(shapes))}')
         return ('def stackBatchIn {α : Type} (k : Nat) (bs : List Nat) (a : Nat → List Nat → α) (b j : Nat) : α := ' + fi + '\n'
                 f'def stackBatchCol {{α : Type}} (x : Nat → Nat → α) (i b : Nat) : α := {col}\n'
